@@ -129,6 +129,22 @@ class Registry:
         self.types.declare(name, t)
         return t
 
+    def union(self, name, variants, fields):
+        """tagged union of frozen dataclasses that live in one list (e.g. the ops of a plan): one record type `name`
+        with the hidden tag `_cls` (class name) and the union of all fields.  `variants` maps each class name to
+        the fields that class declares.  Constructing `Cls(...)` sets the tag and leaves the other classes' fields
+        unspecified; reading a field that the runtime class does not declare is an AttributeError (or the getattr
+        default); `isinstance` tests the tag; `==` compares the tag and the fields of that class.  No relation
+        between the tag and any `kind`-like field is assumed."""
+        fs = {"_cls": TStr}
+        fs.update({k: self.types.parse(v) for k, v in fields.items()})
+        t = TRec(name, fs)
+        t.variants = {c: list(fl) for c, fl in variants.items()}
+        self.types.declare(name, t)
+        for c in variants:
+            self.types.declare(c, t)
+        return t
+
     def objtype(self, name, fields, cls=None):
         fs = {}
         for k, v in fields.items():
